@@ -162,3 +162,13 @@ def sym_bool(name="b"):
 
 def psum(seq, k):
     return sum(seq[:k])
+
+
+def spec_rng():
+    import random
+
+    return _rng or random
+
+
+def uf(name, *args):
+    raise RuntimeError("uf() is symbolic-only")
